@@ -35,6 +35,8 @@ pub struct SinkLog {
     pub counting_only: bool,
     pub accepted_total: u64,
     pub vectored_calls: u64,
+    /// with `counting_only`: writes of at most 1 MiB are still kept, as (offset, bytes)
+    pub small_writes: Vec<(u64, Vec<u8>)>,
 }
 
 impl SinkLog {
@@ -214,6 +216,8 @@ impl Write for SimSink {
         }
         if !log.counting_only {
             log.bytes.extend_from_slice(&buf[..n]);
+        } else if n <= (1 << 20) {
+            log.small_writes.push((offset, buf[..n].to_vec()));
         }
         log.accepted_total += n as u64;
         ev(&mut log, Outcome::Accepted(n as u32));
